@@ -94,7 +94,7 @@ def spec_of(cfg):
     return family.with_scheduler(spec, cfg.get("scheduler", "eager"))
 
 
-EAGER_ONLY = {"schedule_before_conflicting"}  # (ready-dependent relations inside one component are excluded for rr by construction)
+EAGER_ONLY = {"schedule_before_conflicting", "before_chain_reenters_component_head_more_conflicts", "before_chain_reenters_component_tail_defined_first"}  # (ready-dependent relations inside one component are excluded for rr by construction)
 
 
 class Skip(Exception):
